@@ -434,6 +434,12 @@ func runC15(c *Ctx) {
 		checkD5b(c, pr)
 	}
 	checkD7D8(c)
+	// D11 (= E9): reporting the fault never waits for a reader (Err() need not be watched): the
+	// error channel has room for the one value written, otherwise the faulty discipline neither
+	// terminates nor lets a consumer that reads Err() after the output closed ever see the fault
+	r.Doc("D11", "(= E9) the error channel is made with capacity >= 1 and written at most once per goroutine", 3)
+	errChannelNonBlocking(c, c.V1, "D11")
+	errChannelNonBlocking(c, c.V2, "D11")
 	checkErrorTests(c, c.V1, "D10", c.V1.errorFuncs("priority"))
 	checkErrorTests(c, c.V2, "D10", c.V2.errorFuncs("priority", "priority/simple"))
 }
